@@ -3,4 +3,4 @@ From Coq Require Import ExtrOcamlBasic.
 From Tickit Require Import RectDefs WinRectSet WinDefs WinHist WinSpec WinReDefs WinReFlush WinSpecRe WinInput WinInputSpec.
 Extraction "mC02.ml" step run m_init t_find app_scroll app_base
   pol_accept pol_refuse pol_mock pol_fullwidth pol_script no_defects
-  compose owner c01_checkb c02_cells_checkb c02_rects_checkb cursor_spec c15_cursor_checkb outs_before_ins c15_focus_checkb focus_spec c01_pending_checkb step_re c02_exact_checkb c01_restack_checkb c02_within_pending_checkb c15_links_kept_checkb c15_show_checkb step2 c02_rects_in_checkb c02_selfmove_checkb run_acts win_set_geometry geom_exposes.
+  compose owner c01_checkb c02_cells_checkb c02_rects_checkb cursor_spec c15_cursor_checkb outs_before_ins c15_focus_checkb focus_spec c01_pending_checkb step_re c02_exact_checkb c01_restack_checkb c02_within_pending_checkb c15_links_kept_checkb c15_show_checkb c15_hide_checkb step2 c02_rects_in_checkb c02_selfmove_checkb c02_hide_order_checkb run_acts win_set_geometry geom_exposes.
